@@ -299,9 +299,18 @@ def _sig_closing_tag_leaves_container(case: dict, f: Failure) -> bool:
     return any(t in out for t in inside)
 
 
+def _sig_footnote_starts_with_list(case: dict, f: Failure) -> bool:
+    """A footnote definition whose first block is a list: flowmark indents the continuation of a footnote by four columns
+    while the first item starts after "[^label]: ", so what follows the first line lands at another nesting level."""
+    if case.get("kind", "doc") != "doc":
+        return False
+    return _re.search(r"^[ \t>]*\[\^[^\]\n]+\]:[ \t]*(?:[-*+]|\d{1,9}[.)])(?:[ \t]|$)", case["text"], _re.M) is not None
+
+
 DECOMPOSE_KEY = "text"  # several recorded findings in one document: see core.sig_hit
 
 SIGS = {
+    "footnote_starts_with_list": _sig_footnote_starts_with_list,
     "table_first_block_of_list_item": _sig_table_first_in_item,
     "block_like_line_next_to_tag_line": _sig_block_like_line_next_to_tag_line,
     "closing_tag_leaves_container": _sig_closing_tag_leaves_container,
